@@ -763,6 +763,15 @@ func c11R5(c *Ctx, r *Report) {
 										}
 									}
 								}
+								// ... or by re-slicing one element further
+								if sl, isSl := st.Val.(*ssa.Slice); isSl && sl.Low == nil {
+									if hb, isB := sl.High.(*ssa.BinOp); isB && hb.Op == token.ADD {
+										if k1, isK := constIntOf(hb.Y); isK && k1 == 1 && anyIn(sliceOf(hb.X), fieldPathOf(isValue(m), "Extra")) {
+											want--
+											return
+										}
+									}
+								}
 								decided = false
 							})
 						}
